@@ -1,10 +1,10 @@
 #!/bin/bash
-# Build the framework from files on disk only (offline): Coq development, harness, translator.
+# Build the framework from files on disk only (offline): translator output, Coq development, harness.
 set -e
 cd "$(dirname "$0")"
 export CARGO_NET_OFFLINE=true
-mkdir -p .work evidence replays
+mkdir -p .work evidence replays coq/Generated
+python3 tools/xlate.py /repo coq/Generated/Configs.v .work/generated_tables.json || echo "xlate refused (checks will report it)"
 ( cd coq && coq_makefile -f _CoqProject -o Makefile >/dev/null && timeout 7200 make -j16 >/dev/null )
 ( cd harness && cargo build --offline 2>/dev/null )
-if [ -f xlate/Cargo.toml ]; then ( cd xlate && cargo build --offline --release 2>/dev/null ); fi
 echo "setup done"
